@@ -291,6 +291,8 @@ struct MetaSpec {
     /// epoch of the view when it comes from the broker (the installed epoch must not be below the epochs
     /// inside the migration metas, else the switch handlers answer NOT_READY)
     min_epoch: u64,
+    /// `CONFIG migration_max_migration_time <seconds>` of the cluster config (None = default, 3 h)
+    max_migration_time: Option<u64>,
 }
 
 fn sorted_map(m: &HashMap<String, Vec<SlotRange>>) -> Vec<(String, Vec<SlotRange>)> {
@@ -303,7 +305,11 @@ fn sorted_map(m: &HashMap<String, Vec<SlotRange>>) -> Vec<(String, Vec<SlotRange
 fn build_args(spec: &MetaSpec, epoch: u64) -> Result<(Vec<String>, Installed), String> {
     let name = ClusterName::try_from(spec.name.as_str()).map_err(|_| "invalid cluster name".to_string())?;
     let flags = ClusterMapFlags { force: false, compress: spec.compressed };
-    let meta = ProxyClusterMeta::new(epoch, flags, name, spec.local.clone(), spec.peer.clone(), ClusterConfig::default());
+    let mut config = ClusterConfig::default();
+    if let Some(t) = spec.max_migration_time {
+        config.migration_config.max_migration_time = t;
+    }
+    let meta = ProxyClusterMeta::new(epoch, flags, name, spec.local.clone(), spec.peer.clone(), config);
     let args = if spec.compressed {
         meta.to_compressed_args().map_err(|e| format!("{:?}", e))?
     } else {
@@ -638,6 +644,10 @@ struct World {
     states: Vec<(Ranges, String)>,
     /// accepted SETCLUSTERs on this proxy so far
     installs: u64,
+    /// importing ranges whose task the last install dropped (their old source may still send switch commands)
+    stale: Vec<SlotRange>,
+    last_nodes: String,
+    last_slots: String,
 }
 
 struct Run {
@@ -687,6 +697,9 @@ impl Run {
             shape: Err("nothing installed".to_string()),
             states: vec![],
             installs: 0,
+            stale: vec![],
+            last_nodes: String::new(),
+            last_slots: String::new(),
         };
         let line = format!("cfg v={} ar={} me={}", if cfg.v2 { 2 } else { 1 }, if cfg.ar { 1 } else { 0 }, cfg.me);
         self.op(&line, "ok");
@@ -728,7 +741,8 @@ impl Run {
                 expect_tasks.push((ranges_of(sr), "PreCheck".to_string(), false));
             }
         }
-        let n_dropped = old_keys.iter().filter(|(n, o)| !(*n == im.name && new_tagged.contains(o))).count();
+        let dropped: Vec<SlotRange> = old_keys.iter().filter(|(n, o)| !(*n == im.name && new_tagged.contains(o))).map(|(_, o)| o.clone()).collect();
+        let n_dropped = dropped.len();
         // gates of tasks that do not survive are reset (a later task with an equal key starts closed)
         if let Ok(cn) = ClusterName::try_from(im.name.as_str()) {
             let keep: HashSet<String> = new_tagged
@@ -747,11 +761,12 @@ impl Run {
             other => format!("?{:?}", other).replace(' ', "_"),
         };
         let line = format!(
-            "install {} {} {} {}",
+            "install {} {} {} {}{}",
             if im.name.is_empty() { "-" } else { im.name.as_str() },
             im.epoch,
             nodes_text(&im.local),
-            nodes_text(&im.peer)
+            nodes_text(&im.peer),
+            spec.max_migration_time.map(|t| format!(" mmt={}", t)).unwrap_or_default()
         );
         self.op(&line, &obs);
         if obs != "OK" {
@@ -765,6 +780,7 @@ impl Run {
         // name is outside the property's hypotheses (theorem hypothesis `vw.name ≠ ""`)
         self.w.shape = if im.name.is_empty() { Err("empty cluster name".to_string()) } else { partition_shape(&self.w.es) };
         self.w.im = im;
+        self.w.stale = dropped.into_iter().filter(|sr| kind_of(sr) == 'I').collect();
         self.s.stats.count(if self.w.shape.is_ok() { "meta.partition" } else { "meta.not_partition" });
         // --- the task map right after the install ---------------------------------------------------
         let got = match self.read_states().await {
@@ -923,6 +939,87 @@ impl Run {
         self.op(&format!("states {}", t), &t);
     }
 
+    /// one `UMCTL <sub> mgr-0.2 <cluster> MIGRATING <range list> <meta>` exactly as a source proxy sends it, for an
+    /// arbitrary (possibly stale or altered) migration meta; then the task map and both replies again.
+    /// Oracle: only a command whose meta is exactly the meta of an installed importing task is accepted; any other
+    /// is refused and changes neither the task map nor what is advertised.
+    async fn do_switch(&mut self, sub: &str, cluster: &str, ranges: &Ranges, meta: &MigrationMeta) {
+        let cn = match ClusterName::try_from(cluster) {
+            Ok(c) => c,
+            Err(_) => return,
+        };
+        let sr = SlotRange { range_list: raw_range_list(ranges), tag: SlotRangeTag::Migrating(meta.clone()) };
+        let exact = cluster == self.w.im.name
+            && self.w.im.local.iter().flat_map(|(_, srs)| srs.iter()).any(|x| match &x.tag {
+                SlotRangeTag::Importing(m) => m == meta && ranges_of(x) == *ranges,
+                _ => false,
+            });
+        let before = (self.w.states.clone(), self.w.last_nodes.clone(), self.w.last_slots.clone());
+        let arg = SwitchArg { version: UNDERMOON_MIGRATION_VERSION.to_string(), meta: MigrationTaskMeta { cluster_name: cn, slot_range: sr.clone() } };
+        let mut cmd = vec!["UMCTL".to_string(), sub.to_string()];
+        cmd.extend(arg.into_strings());
+        let r = self.w.proxy.run_strs(&cmd).await;
+        let obs = match &r {
+            Ok(Resp::Simple(s)) => latin1(s),
+            Ok(Resp::Error(e)) => format!("E:{}", latin1(e)).replace(' ', "_"),
+            other => format!("?{:?}", other).replace(' ', "_"),
+        };
+        self.op(&format!("switch {} {} {}", sub, if cluster.is_empty() { "-" } else { cluster }, sr_text(&sr)), &obs);
+        self.s.stats.count(&format!("switch.{}.{}", if exact { "exact" } else { "foreign" }, obs));
+        let want = if meta.epoch > self.w.epoch { "E:NOT_READY_FOR_SWITCHING" } else if exact { "OK" } else { "E:TASK_NOT_FOUND" };
+        if obs != want {
+            let m = format!("UMCTL {} with meta {} answered {}, expected {}", sub, sr_text(&sr), obs, want);
+            self.fail(&m);
+        }
+        let got = match self.read_states().await {
+            Ok(g) => g,
+            Err(e) => {
+                self.fail(&e);
+                vec![]
+            }
+        };
+        self.op("tasks", &states_text(&got));
+        self.w.states = got.clone();
+        self.do_nodes_slots().await;
+        if !(exact && obs == "OK") {
+            if got != before.0 {
+                let m = format!("a refused UMCTL {} ({}) changed the task map: {} -> {}", sub, sr_text(&sr), states_text(&before.0), states_text(&got));
+                self.fail(&m);
+            }
+            if !before.1.is_empty() && (self.w.last_nodes != before.1 || self.w.last_slots != before.2) {
+                let m = format!("a refused UMCTL {} ({}) changed the advertised topology", sub, sr_text(&sr));
+                self.fail(&m);
+            }
+            self.flag("switch.refused_changes_nothing");
+        }
+    }
+
+    /// let virtual time pass with every gate as it is: no switch step is acknowledged meanwhile, so no task may
+    /// change its phase (`max_migration_time` / `max_blocking_time` expiring included) and the advert stays
+    async fn do_tick(&mut self, ms: u64) {
+        let before = (self.w.states.clone(), self.w.last_nodes.clone(), self.w.last_slots.clone());
+        tokio::time::sleep(Duration::from_millis(ms)).await;
+        self.op(&format!("tick {}", ms), "ok");
+        let got = match self.read_states().await {
+            Ok(g) => g,
+            Err(e) => {
+                self.fail(&e);
+                vec![]
+            }
+        };
+        self.op("tasks", &states_text(&got));
+        self.w.states = got.clone();
+        self.do_nodes_slots().await;
+        if got != before.0 {
+            let m = format!("task phases changed although no switch step was acknowledged ({} ms passed): {} -> {}", ms, states_text(&before.0), states_text(&got));
+            self.fail(&m);
+        }
+        if !before.1.is_empty() && (self.w.last_nodes != before.1 || self.w.last_slots != before.2) {
+            self.fail("the advertised topology changed although no switch step was acknowledged");
+        }
+        self.flag("tick.nothing_changed");
+    }
+
     fn state_of(&self, rs: &Ranges) -> Option<String> {
         // get_states is keyed by range list only; duplicates are never generated with differing states
         self.w.states.iter().rev().find(|(r, _)| r == rs).map(|(_, s)| s.clone())
@@ -957,6 +1054,7 @@ impl Run {
                 vec![]
             }
         };
+        self.w.last_nodes = canon_nodes(&text);
         self.op("nodes", &canon_nodes(&text));
         let (r2, _) = self.w.proxy.run(&[b"cluster".to_vec(), b"slots".to_vec()]).await;
         let slots = match r2 {
@@ -966,6 +1064,7 @@ impl Run {
                 Resp::Arr(Array::Nil)
             }
         };
+        self.w.last_slots = canon_slots(&slots);
         self.op("slots", &canon_slots(&slots));
         self.s.stats.count(if self.w.cfg.v2 { "out.nodes.v2" } else { "out.nodes.v1" });
         if matches!(slots, Resp::Error(_)) {
@@ -1221,6 +1320,9 @@ struct Group {
     dest: Option<Owner>,
     /// an uncompacted stable range list is written in descending order
     rev: bool,
+    /// `(k, o2)`: from install `k` on the migration is re-issued — same ranges and destination, new source `o2`
+    /// (a failover of the source) and a newer migration epoch; the destination's task is replaced
+    reissue: Option<(usize, Owner)>,
 }
 
 #[derive(Clone, Copy, PartialEq)]
@@ -1274,7 +1376,7 @@ impl Plan {
             compact_range_list(&g.ranges)
         }
     }
-    fn render(&self, stages: &[Stage]) -> MetaSpec {
+    fn render(&self, stages: &[Stage], k: usize) -> MetaSpec {
         let mut local: HashMap<String, Vec<SlotRange>> = HashMap::new();
         let mut peer: HashMap<String, Vec<SlotRange>> = HashMap::new();
         let mut put = |o: &Owner, sr: SlotRange| {
@@ -1285,19 +1387,23 @@ impl Plan {
             }
         };
         for (g, st) in self.groups.iter().zip(stages.iter()) {
+            let (owner, mepoch) = match &g.reissue {
+                Some((at, o2)) if k >= *at => (o2, *at as u64 + 1),
+                _ => (&g.owner, 1),
+            };
             match (&g.dest, st) {
-                (None, _) | (Some(_), Stage::Hidden) => put(&g.owner, SlotRange { range_list: self.mk_rl(g, false), tag: SlotRangeTag::None }),
+                (None, _) | (Some(_), Stage::Hidden) => put(owner, SlotRange { range_list: self.mk_rl(g, false), tag: SlotRangeTag::None }),
                 (Some(d), Stage::Committed) => put(d, SlotRange { range_list: self.mk_rl(g, false), tag: SlotRangeTag::None }),
                 (Some(d), Stage::Exposed) => {
-                    let o = &g.owner;
-                    let meta = mk_meta(1, &self.proxy_addr(o.proxy), &self.node_addr(o.proxy, o.node), &self.proxy_addr(d.proxy), &self.node_addr(d.proxy, d.node));
+                    let o = owner;
+                    let meta = mk_meta(mepoch, &self.proxy_addr(o.proxy), &self.node_addr(o.proxy, o.node), &self.proxy_addr(d.proxy), &self.node_addr(d.proxy, d.node));
                     let rl = self.mk_rl(g, true);
                     put(o, SlotRange { range_list: rl.clone(), tag: SlotRangeTag::Migrating(meta.clone()) });
                     put(d, SlotRange { range_list: rl, tag: SlotRangeTag::Importing(meta) });
                 }
             }
         }
-        MetaSpec { name: self.name.clone(), local, peer, compressed: self.compressed, min_epoch: 0 }
+        MetaSpec { name: self.name.clone(), local, peer, compressed: self.compressed, min_epoch: 0, max_migration_time: None }
     }
 }
 
@@ -1361,7 +1467,7 @@ impl Gen {
             let rev = rng.chance(1, 2);
             let migrating = owners.len() > 1 && (rng.chance(2, 5) || (forced && force_role < 3));
             if !migrating {
-                groups.push(Group { ranges: g.clone(), owner: o, dest: None, rev });
+                groups.push(Group { ranges: g.clone(), owner: o, dest: None, rev, reissue: None });
                 continue;
             }
             let mut d = rng.pick(&owners).clone();
@@ -1389,11 +1495,11 @@ impl Gen {
                 guard += 1;
             }
             if d.proxy == o.proxy {
-                groups.push(Group { ranges: g.clone(), owner: o, dest: None, rev });
+                groups.push(Group { ranges: g.clone(), owner: o, dest: None, rev, reissue: None });
                 continue;
             }
             roles.insert(if o.proxy == 0 { "source" } else if d.proxy == 0 { "destination" } else { "bystander" });
-            groups.push(Group { ranges: g.clone(), owner: o, dest: Some(d), rev });
+            groups.push(Group { ranges: g.clone(), owner: o, dest: Some(d), rev, reissue: None });
         }
         for r in roles {
             stats.count(&format!("gen.role.{}", r));
@@ -1414,7 +1520,7 @@ impl Gen {
     fn partition_meta(&mut self, stats: &mut Stats, me: &str, force_role: u64) -> MetaSpec {
         let plan = self.partition_plan(stats, me, force_role, false);
         let stages = vec![Stage::Exposed; plan.groups.len()];
-        plan.render(&stages)
+        plan.render(&stages, 0)
     }
 
     /// 2-4 successive metas of one layout: every migration is hidden (still stable at its source), then
@@ -1422,10 +1528,24 @@ impl Gen {
     /// commits of finished migrations make a proxy see. The first two migrations share a local node: one of
     /// them runs through the whole history, the other is exposed by a later install.
     fn partition_history(&mut self, stats: &mut Stats, me: &str, force_role: u64) -> Vec<MetaSpec> {
-        let plan = self.partition_plan(stats, me, force_role, true);
+        let mut plan = self.partition_plan(stats, me, force_role, true);
         let rng = &mut self.rng;
         let n = 2 + rng.below(3) as usize;
-        let swap = rng.chance(1, 2);
+        let mut swap = rng.chance(1, 2);
+        // "same range re-issued": the first migration (this proxy is its destination) gets a new source and a newer
+        // migration epoch in a later install, before it was committed
+        if let Some(g0) = plan.groups.first() {
+            if g0.dest.as_ref().map(|d| d.proxy == 0).unwrap_or(false) && rng.chance(1, 2) {
+                let src = g0.owner.proxy;
+                let others: Vec<usize> = plan.groups.iter().flat_map(|g| std::iter::once(g.owner.proxy).chain(g.dest.iter().map(|d| d.proxy))).filter(|p| *p != 0 && *p != src).collect();
+                if let Some(o2) = others.first() {
+                    let at = 1 + rng.below(n as u64 - 1) as usize;
+                    plan.groups[0].reissue = Some((at, Owner { proxy: *o2, node: 0 }));
+                    swap = false; // exposed from the first install on
+                    stats.count("gen.hist.reissued_migration");
+                }
+            }
+        }
         let mut windows: Vec<(usize, usize)> = vec![];
         for gi in 0..plan.groups.len() {
             let w = if gi <= 1 {
@@ -1446,7 +1566,7 @@ impl Gen {
         (0..n)
             .map(|k| {
                 let stages: Vec<Stage> = windows.iter().map(|(st, en)| if k < *st { Stage::Hidden } else if k < *en { Stage::Exposed } else { Stage::Committed }).collect();
-                plan.render(&stages)
+                plan.render(&stages, k)
             })
             .collect()
     }
@@ -1643,7 +1763,7 @@ impl Gen {
             for n in p.get_nodes().iter().filter(|n| n.get_role() == Role::Master) {
                 local.insert(n.get_address().to_string(), n.get_slots().to_vec());
             }
-            Some(MetaSpec { name: name.clone(), local, peer, compressed, min_epoch: p_epoch })
+            Some(MetaSpec { name: name.clone(), local, peer, compressed, min_epoch: p_epoch, max_migration_time: None })
         };
         let migrating = c.get_nodes().iter().any(|n| n.get_slots().iter().any(|s| !matches!(s.tag, SlotRangeTag::None)));
         stats.count(if migrating { "gen.broker.view_migrating" } else { "gen.broker.view_stable" });
@@ -1707,6 +1827,73 @@ impl Gen {
         stats.count(&format!("gen.broker.installs.{}", metas.len()));
         Some((me, metas))
     }
+}
+
+/// a switch command as a (former / other / confused) source proxy could send it: the meta of an installed or
+/// just dropped importing task, exact or with exactly one field changed
+fn switch_variant(rng: &mut Rng, im: &Installed, stale: &[SlotRange]) -> Option<(Ranges, MigrationMeta, &'static str)> {
+    let cur: Vec<&SlotRange> = im.local.iter().flat_map(|(_, srs)| srs.iter()).filter(|sr| kind_of(sr) == 'I').collect();
+    let use_stale = !stale.is_empty() && (cur.is_empty() || rng.chance(1, 2));
+    let base: &SlotRange = if use_stale { rng.pick(stale) } else if !cur.is_empty() { *rng.pick(&cur) } else { return None };
+    let mut rs = ranges_of(base);
+    let mut m = base.tag.get_migration_meta()?.clone();
+    let bump = |a: &str| format!("{}9", a);
+    let label = match if use_stale { 0 } else { rng.below(9) } {
+        0 if use_stale => "stale_exact",
+        0 | 1 => "exact",
+        2 => {
+            m.epoch = m.epoch.saturating_sub(1);
+            "epoch_older"
+        }
+        3 => {
+            m.epoch += 1;
+            "epoch_newer"
+        }
+        4 => {
+            m.src_proxy_address = bump(&m.src_proxy_address);
+            "src_proxy"
+        }
+        5 => {
+            m.src_node_address = bump(&m.src_node_address);
+            "src_node"
+        }
+        6 => {
+            m.dst_proxy_address = bump(&m.dst_proxy_address);
+            "dst_proxy"
+        }
+        7 => {
+            m.dst_node_address = bump(&m.dst_node_address);
+            "dst_node"
+        }
+        _ => {
+            if let Some(l) = rs.last_mut() {
+                if l.1 + 1 < SLOT_NUM {
+                    l.1 += 1;
+                } else if l.1 > l.0 {
+                    l.1 -= 1;
+                } else {
+                    l.0 = l.0.saturating_sub(1);
+                }
+            }
+            "range_shifted"
+        }
+    };
+    Some((rs, m, label))
+}
+
+fn parse_sr(sr: &str) -> Option<(char, Ranges, Option<MigrationMeta>)> {
+    let (k, rest) = sr.split_once(':')?;
+    let (rl, meta) = match rest.split_once('@') {
+        Some((rl, m)) => {
+            let f: Vec<&str> = m.split('~').collect();
+            if f.len() != 5 {
+                return None;
+            }
+            (rl, Some(mk_meta(f[0].parse().ok()?, f[1], f[2], f[3], f[4])))
+        }
+        None => (rest, None),
+    };
+    Some((k.chars().next()?, parse_rl(rl)?, meta))
 }
 
 fn probe_slots(rng: &mut Rng, es: &[Entry], n_random: usize) -> Vec<usize> {
@@ -1805,6 +1992,9 @@ fn main() {
                 shape: Err("nothing installed".to_string()),
                 states: vec![],
                 installs: 0,
+                stale: vec![],
+                last_nodes: String::new(),
+                last_slots: String::new(),
             },
             case: 0,
             case_ops: vec![],
@@ -1825,8 +2015,19 @@ fn main() {
                         let v = |t: &str| t.split_once('=').map(|x| x.1.to_string()).unwrap_or_default();
                         run.do_cfg(Cfg { v2: v(toks[1]) != "1", ar: v(toks[2]) == "1", me: v(toks[3]) }).await;
                     }
-                    "install" if toks.len() == 5 => {
+                    "switch" if toks.len() == 4 => {
+                        if let Some((_, rs, Some(m))) = parse_sr(toks[3]) {
+                            run.do_switch(toks[1], if toks[2] == "-" { "" } else { toks[2] }, &rs, &m).await; // emits switch, tasks, nodes, slots
+                        }
+                    }
+                    "tick" if toks.len() == 2 => {
+                        if let Ok(ms) = toks[1].parse() {
+                            run.do_tick(ms).await; // emits tick, tasks, nodes, slots
+                        }
+                    }
+                    "install" if toks.len() == 5 || toks.len() == 6 => {
                         if let Some(mut spec) = replay_spec(&run.w.cfg.me, toks[1], toks[3], toks[4]) {
+                            spec.max_migration_time = toks.get(5).and_then(|t| t.strip_prefix("mmt=")).and_then(|t| t.parse().ok());
                             // keep the line's epoch when it is usable (the harness never goes backwards)
                             spec.min_epoch = spec.min_epoch.max(toks[2].parse().unwrap_or(0));
                             run.do_install(&spec).await; // emits `install` and `tasks`
@@ -1870,8 +2071,10 @@ fn main() {
                 0 | 1 | 2 | 3 => "partition",
                 4 | 5 | 6 => "broker",
                 7 | 8 => "odd",
-                _ => "fresh",
+                _ if ci / 10 % 2 == 0 => "fresh",
+                _ => "timeout",
             };
+            let timeout_family = class == "timeout";
             run.s.stats.count(&format!("gen.class.{}", class));
             let mut me = if rng.chance(1, 5) { format!("127.0.0.{}:{}", 1 + rng.below(3), 5000 + rng.below(1000)) } else { "127.0.0.1:5299".to_string() };
             // 1-4 successive SETCLUSTERs for the same (long-lived) proxy process
@@ -1880,6 +2083,12 @@ fn main() {
                 "partition" if history => gen.partition_history(&mut run.s.stats, &me, ci as u64 / 10 % 4),
                 "partition" => vec![gen.partition_meta(&mut run.s.stats, &me, ci as u64 / 10 % 4)],
                 "odd" => vec![gen.odd_meta(&mut run.s.stats, &me)],
+                "timeout" => {
+                    // this proxy is the source; `CONFIG migration_max_migration_time 1`
+                    let mut m = gen.partition_meta(&mut run.s.stats, &me, 0);
+                    m.max_migration_time = Some(1);
+                    vec![m]
+                }
                 "broker" => match gen.broker_meta(&mut run.s.stats) {
                     Some((a, m)) => {
                         me = a;
@@ -1889,7 +2098,7 @@ fn main() {
                 },
                 _ => vec![],
             };
-            let cfg = Cfg { v2: rng.chance(1, 2), ar: class != "odd" && rng.chance(1, 6), me: me.clone() };
+            let cfg = Cfg { v2: rng.chance(1, 2), ar: class != "odd" && class != "timeout" && rng.chance(1, 6), me: me.clone() };
             run.do_cfg(cfg).await;
             // before anything is installed
             if class == "fresh" || rng.chance(1, 8) {
@@ -1910,8 +2119,31 @@ fn main() {
                 run.do_nodes_slots().await;
                 let ps = probe_slots(&mut rng, &run.w.es, if thorough { 8 } else { 4 });
                 run.do_probes(&ps).await;
+                // switch commands of former / other sources between the installs
+                if rng.chance(1, 2) {
+                    for _ in 0..(1 + rng.below(2)) {
+                        if let Some((rs, m, label)) = switch_variant(&mut rng, &run.w.im, &run.w.stale) {
+                            run.s.stats.count(&format!("gen.switch.{}", label));
+                            let sub = *rng.pick(&["PRECHECK", "PRESWITCH", "FINALSWITCH"]);
+                            let cluster = if rng.chance(1, 12) { "othercluster".to_string() } else { run.w.im.name.clone() };
+                            run.do_switch(sub, &cluster, &rs, &m).await;
+                        }
+                    }
+                }
                 let has_tasks = run.w.es.iter().any(|e| e.local && e.kind != 'N');
                 if !has_tasks {
+                    continue;
+                }
+                if timeout_family {
+                    // the peer acknowledges nothing while `max_migration_time` (1 s) expires: nothing may move; then the
+                    // destination acknowledges FINALSWITCH ("force to commit"): only now the range changes sides
+                    run.do_tick(3000).await;
+                    let mut targets: BTreeMap<Ranges, String> = run.w.states.iter().cloned().collect();
+                    for e in run.w.es.iter().filter(|e| e.local && e.kind == 'M') {
+                        targets.insert(e.ranges.clone(), "SwitchCommitted".to_string());
+                    }
+                    run.do_phases(&targets).await;
+                    run.do_nodes_slots().await;
                     continue;
                 }
                 // then move the tasks on through the real handshake (fewer phase points inside a history)
@@ -2039,5 +2271,5 @@ fn replay_spec(me: &str, name: &str, local: &str, peer: &str) -> Option<MetaSpec
         out
     };
     let (l, p) = (build(&lo), build(&pe));
-    Some(MetaSpec { name: if name == "-" { String::new() } else { name.to_string() }, local: l, peer: p, compressed: true, min_epoch })
+    Some(MetaSpec { name: if name == "-" { String::new() } else { name.to_string() }, local: l, peer: p, compressed: true, min_epoch, max_migration_time: None })
 }
